@@ -174,6 +174,28 @@ def make_table(rng):
             rows = [r for r in rows if not ((r["chain"], r["resseq"], r["icode"]) == k and r["name"] == dead)]
             for i, r in enumerate(rows, 1):
                 r["serial"] = i + off
+    # a nucleotide named as one of the less common components: inosine (I / DI: a purine without N2), deoxyuridine (DU)
+    if rng.random() < 0.2:
+        ks = sorted({(r["chain"], r["resseq"], r["icode"]): r["resname"] for r in rows if r["resname"] in ("G", "DG", "U", "DT", "A")}.items(), key=str)
+        if ks:
+            k, old_name = rng.choice(ks)
+            new_name = {"G": "I", "DG": "DI", "U": "DU", "DT": "DU", "A": "I"}[old_name]
+            drop = {"G": {"N2", "H21", "H22"}, "DG": {"N2", "H21", "H22"}, "DT": {"C7", "C5M", "H71", "H72", "H73"}, "A": {"N6", "H61", "H62"}}.get(old_name, set())
+            rows = [dict(r, resname=new_name) if (r["chain"], r["resseq"], r["icode"]) == k else r for r in rows if not ((r["chain"], r["resseq"], r["icode"]) == k and r["name"] in drop)]
+            for i, r in enumerate(rows, 1):
+                r["serial"] = i + off
+    # a mid-chain residue modelled without its phosphate group (P, OP1, OP2 absent, O5' present): no O3'-P link to it
+    if rng.random() < 0.15:
+        ks = []
+        for r in rows:
+            k = (r["chain"], r["resseq"], r["icode"])
+            if k not in ks:
+                ks.append(k)
+        if len(ks) >= 3:
+            k = ks[rng.randrange(1, len(ks))]
+            rows = [r for r in rows if not ((r["chain"], r["resseq"], r["icode"]) == k and r["name"] in ("P", "OP1", "OP2", "OP3", "O1P", "O2P", "P*"))]
+            for i, r in enumerate(rows, 1):
+                r["serial"] = i + off
     # atom names in the spelling used before the 2007 remediation (and by several modelling tools to this day): the
     # prime written as an asterisk.  Names are data: every reader reports them as written, from both formats
     if rng.random() < 0.1:
